@@ -208,6 +208,15 @@ var tamperOps = []tamperOp{
 		_, p, _ := splitJWT(g.token)
 		return signWith(dec(p), jose.RS256, c.subjectKey.Key, c.subjectKey.KeyID, nil), false
 	}},
+	{"signed-by-another-clients-key-under-its-kid", func(g *genuine, c *c02) (string, bool) {
+		// the payload names its client; the signature is another registered client's, made with that client's own
+		// key under that key's own id (which the provider has seen and verified before, see the warm-up)
+		if g.surface != "client-assertion" && g.surface != "request-object" && g.surface != "delegated-assertion" {
+			return "", false
+		}
+		_, p, _ := splitJWT(g.token)
+		return signWith(dec(p), jose.RS256, c.subjectKey.Key, c.subjectKey.KeyID, nil), false
+	}},
 	{"swap-kid-to-other-published-key", func(g *genuine, c *c02) (string, bool) {
 		if c.other == nil || g.surface == "client-assertion" || g.surface == "request-object" {
 			return "", false
@@ -404,6 +413,11 @@ func RunC02(t *testing.T, spec kernel.Spec) *kernel.Outcome {
 		subPub := c.subjectKey.Public()
 		w.Store.Clients["web"].Key = &subPub
 		delegated := w.Assertion("jwt", "web", "jwt", []string{w.Issuer}, now, now.Add(time.Hour), ck)
+		// history: the second client uses its own key for itself first, so whatever the provider remembers about
+		// verified keys or signatures is warm before the manipulated tokens arrive
+		if _, ok := isTokenSuccess(w.PostForm("/oauth/token", url.Values{"grant_type": {string(oidc.GrantTypeBearer)}, "assertion": {w.Assertion("web", "web", "web", []string{w.Issuer}, now, now.Add(time.Hour), c.subjectKey)}}, world.Creds{Mode: "none"})); ok {
+			o.Probe("second-client-key-used")
+		}
 		delegVerifier := op.NewJWTProfileVerifier(w.OP.Storage, w.Issuer, time.Hour, time.Second, op.SubjectCheck(func(*oidc.JWTTokenRequest) error { return nil }))
 		surfaces := []*genuine{
 			{surface: "rp-id-token", token: s.tokens.IDToken, key: cur.Priv, pub: cur.Pub, alg: cur.Alg, kid: cur.KID, deliver: func(tok string) (bool, string, string) {
